@@ -38,6 +38,7 @@ def build_book(r, tier):
     batch = r.choice([1, 2, 3, 4, 5, 7, 500])
     files, names, model = {}, [], []
     nr = 0
+    trivial = fmt in ("csv", "tsv") and r.chance(0.3)
     for k in range(nfiles):
         n = r.choice([0, 0, 1, 2, batch - 1, batch, batch + 1, 2 * batch, r.randint(1, 12)])
         n = max(0, min(n, 40))
@@ -58,6 +59,10 @@ def build_book(r, tier):
             if n > 0 or r.chance(0.5):
                 lines.append(sep.join(hdr))
             for rec in recs:
+                if trivial and nf >= 3 and r.chance(0.3):
+                    # an all-empty line of the wrong length: dropped by the reader (not counted) when the chain has
+                    # skip-trivial-records
+                    lines.append(sep if fmt == "csv" else "")
                 lines.append(sep.join(v for _, v in rec))
             text = "\n".join(lines) + ("\n" if lines else "")
         elif fmt == "csvlite":
@@ -139,7 +144,7 @@ def build_book(r, tier):
     prog = ("str keys = joink($*, \";\"); str vals = joinv($*, \";\"); $nf1 = NF; $nf2 = NF; "
             "$* = {\"nr\": NR, \"fnr\": FNR, \"f\": FILENAME, \"k\": FILENUM, \"nf1\": $nf1, \"nf2\": $nf2, \"keys\": keys, \"vals\": vals}; "
             "end { emit mapsum({\"final_nr\": NR}, {}) }")
-    args = ["mlr"] + iflags + ["--ojson", "put", prog] + names
+    args = ["mlr"] + iflags + ["--ojson"] + (["skip-trivial-records", "then"] if trivial else []) + ["put", prog] + names
     model.append({"final_nr": nr})
     return {"kind": "book", "args": args, "files": files, "model": model, "batch": batch, "cseed": r.randint(1, 1 << 40), "fmt": fmt,
             "nconf": 5 if tier == "quick" else 9}
@@ -205,7 +210,7 @@ def build_source(r, tier):
             "nvar": 6 if tier == "quick" else 12}
 
 
-SOURCES = ["file", "stdin", "from", "gz_ext", "gz_flag", "z_ext", "z_flag", "bz2_ext", "bz2_flag", "gz_stdin", "prepipe", "prepipex", "file_twice_from"]
+SOURCES = ["file", "stdin", "from", "gz_multi", "gz_multi_stdin", "gz_ext", "gz_flag", "z_ext", "z_flag", "bz2_ext", "bz2_flag", "gz_stdin", "prepipe", "prepipex", "file_twice_from"]
 
 
 def source_spec(case, src, rng):
@@ -230,6 +235,14 @@ def source_spec(case, src, rng):
         args, kw["files"] = ["mlr", "--from", fn] + iflags + case["oflags"] + chain, {fn: raw}
     elif src == "gz_ext":
         args, kw["files"] = base + chain + [fn + ".gz"], {fn + ".gz": gzip.compress(raw, mtime=0)}
+    elif src in ("gz_multi", "gz_multi_stdin"):
+        # a gzip file may consist of several members (gzip -c b >> f.gz; cat a.gz b.gz): all of them are the content
+        cut = raw.rfind(b"\n", 0, max(1, len(raw) // 2)) + 1
+        z = gzip.compress(raw[:cut], mtime=0) + gzip.compress(raw[cut:], mtime=0) if 0 < cut < len(raw) else gzip.compress(raw, mtime=0) + gzip.compress(b"", mtime=0)
+        if src == "gz_multi":
+            args, kw["files"] = base + chain + [fn + ".gz"], {fn + ".gz": z}
+        else:
+            args, kw["stdin"] = ["mlr", "--gzin"] + iflags + case["oflags"] + chain, z
     elif src == "gz_flag":
         args, kw["files"] = ["mlr", "--gzin"] + iflags + case["oflags"] + chain + [fn + ".bin"], {fn + ".bin": gzip.compress(raw, mtime=0)}
     elif src == "z_ext":
